@@ -145,6 +145,18 @@ impl Core {
             .verif_cache_peek(&PublicKeyBytes::new_unchecked(key))
     }
 
+    /// One step of the eviction pass: the `(time µs, key)` entries a fresh snapshot of the
+    /// update-time index yields below `cutoff_micros` (only committed data is visible).
+    pub async fn evict_snapshot_below(&self, cutoff_micros: u64) -> Result<Vec<(u64, [u8; 32])>> {
+        self.state.store.verif_snapshot_below(cutoff_micros).await
+    }
+
+    /// The other step of the eviction pass: sends `CheckExpired { time, key }` through the
+    /// store's channel. A following [`Self::store_get`] returns after it was handled.
+    pub async fn evict_check_expired(&self, time_micros: u64, key: [u8; 32]) -> Result<()> {
+        self.state.store.verif_check_expired(time_micros, key).await
+    }
+
     /// [`ZoneStore::resolve`].
     pub async fn store_resolve(
         &self,
